@@ -459,4 +459,135 @@ theorem visits_all (nb : V → List V) (Vs : List V) (hu : Undirected nb Vs) (ro
     rw [hst]; simp
   exact Reach.mem_of_closed hcl (connected_reach nb Vs hu hc root v hr hv) h2.root
 
+/-! ## RUNG 3: what is reported lies inside the graph -/
+
+theorem nodup_eraseDups_aux {α : Type} [BEq α] [LawfulBEq α] :
+    ∀ (n : Nat) (l : List α), l.length ≤ n → l.eraseDups.Nodup := by
+  intro n
+  induction n with
+  | zero =>
+    intro l hl
+    have : l = [] := List.length_eq_zero_iff.mp (by omega)
+    subst this; simp
+  | succ n ih =>
+    intro l hl
+    cases l with
+    | nil => simp
+    | cons a as =>
+      rw [List.eraseDups_cons, List.nodup_cons]
+      constructor
+      · rw [List.mem_eraseDups]; simp
+      · apply ih
+        have := List.length_filter_le (fun b => !b == a) as
+        simp at hl; omega
+
+theorem nodup_nodesOf (es : List (V × V)) : (nodesOf es).Nodup :=
+  nodup_eraseDups_aux _ _ (Nat.le_refl _)
+
+theorem mem_nodesOf {es : List (V × V)} {v : V} (h : v ∈ nodesOf es) : ∃ e ∈ es, v = e.1 ∨ v = e.2 := by
+  unfold nodesOf at h
+  rw [List.mem_eraseDups, List.mem_flatMap] at h
+  obtain ⟨e, he, hv⟩ := h
+  exact ⟨e, he, by simpa using hv⟩
+
+theorem mem_insertSet {x a : V} {l : List V} (h : a ∈ insertSet x l) : a = x ∨ a ∈ l := by
+  unfold insertSet at h
+  split at h
+  · exact Or.inr h
+  · exact List.mem_cons.mp h
+
+theorem mem_insertSet_self (x : V) (l : List V) : x ∈ insertSet x l := by
+  unfold insertSet
+  split
+  · next h => simpa using h
+  · simp
+
+theorem mem_insertSet_of_mem {x a : V} {l : List V} (h : a ∈ l) : a ∈ insertSet x l := by
+  unfold insertSet
+  split
+  · exact h
+  · exact List.mem_cons_of_mem _ h
+
+structure Inv3 (Vs : List V) (s : BSt) : Prop where
+  est : ∀ e ∈ s.estack, e.1 ∈ Vs ∧ e.2 ∈ Vs
+  comps : ∀ c ∈ s.comps, (∀ v ∈ c, v ∈ Vs) ∧ c.Nodup
+  aps : ∀ a ∈ s.aps, a ∈ Vs
+
+theorem inv3_init (nb : V → List V) (Vs : List V) (root : V) : Inv3 Vs (init nb root) := by
+  constructor <;> simp [init]
+
+theorem comp_ok {Vs : List V} {es : List (V × V)} (h : ∀ e ∈ es, e.1 ∈ Vs ∧ e.2 ∈ Vs) (n : Nat) :
+    (∀ v ∈ nodesOf (es.drop n), v ∈ Vs) ∧ (nodesOf (es.drop n)).Nodup := by
+  refine ⟨?_, nodup_nodesOf _⟩
+  intro v hv
+  obtain ⟨e, he, hv⟩ := mem_nodesOf hv
+  have := h e (List.mem_of_mem_drop he)
+  rcases hv with hv | hv <;> rw [hv]
+  · exact this.1
+  · exact this.2
+
+theorem inv3_step (nb : V → List V) (Vs : List V) (hu : Undirected nb Vs) (s : BSt) (h1 : Inv1 nb Vs s)
+    (h : Inv3 Vs s) : Inv3 Vs (bstep nb s) := by
+  obtain ⟨he, hc, ha⟩ := h
+  have push_est : ∀ f rest nn, s.stack = f :: rest → f.ptr < f.nbrs.length → nn = f.nbrs.getD f.ptr "" →
+      ∀ e ∈ s.estack ++ [(f.child, nn)], e.1 ∈ Vs ∧ e.2 ∈ Vs := by
+    intro f rest nn hs hlt hnn e hmem
+    rcases List.mem_append.mp hmem with h | h
+    · exact he e h
+    · simp at h
+      have hcV : f.child ∈ Vs := h1.sub _ (h1.child f (by simp [hs]))
+      have hmem : nn ∈ nb f.child := by
+        rw [← h1.nbrs f (by simp [hs]), hnn]; exact getD_mem hlt
+      rw [h]; exact ⟨hcV, hu.closed _ hcV _ hmem⟩
+  have comps_ok : ∀ n, ∀ c ∈ s.comps ++ [nodesOf (s.estack.drop n)], (∀ v ∈ c, v ∈ Vs) ∧ c.Nodup := by
+    intro n c hmem
+    rcases List.mem_append.mp hmem with h | h
+    · exact hc c h
+    · simp at h; rw [h]; exact comp_ok he n
+  have take_ok : ∀ n, ∀ e ∈ s.estack.take n, e.1 ∈ Vs ∧ e.2 ∈ Vs :=
+    fun n e hmem => he e (List.mem_of_mem_take hmem)
+  apply bstep_cases
+  · intro _; exact ⟨he, hc, ha⟩
+  · intro f rest hs hlt hp
+    exact ⟨he, hc, ha⟩
+  · intro f rest nn hs hlt hnn hp hv hle
+    exact ⟨push_est f rest nn hs hlt hnn, hc, ha⟩
+  · intro f rest nn hs hlt hnn hp hv hle
+    exact ⟨he, hc, ha⟩
+  · intro f rest nn hs hlt hnn hp hv
+    exact ⟨push_est f rest nn hs hlt hnn, hc, ha⟩
+  · intro f rest hs hlt hlen hc'
+    refine ⟨take_ok _, comps_ok _, ?_⟩
+    intro a ha'
+    rcases mem_insertSet ha' with h | h
+    · rw [h]; exact h1.sub _ (h1.parent f (by simp [hs]))
+    · exact ha a h
+  · intro f rest hs hlt hlen hc'
+    exact ⟨he, hc, ha⟩
+  · intro f rest hs hlt hlen
+    exact ⟨take_ok _, comps_ok _, ha⟩
+  · intro f hs hlt
+    exact ⟨he, hc, ha⟩
+
+theorem inv3_bgo (nb : V → List V) (Vs : List V) (hu : Undirected nb Vs) (root : V) (hr : root ∈ Vs) (n : Nat) :
+    Inv3 Vs (bgo nb n (init nb root)) := by
+  have := bgo_inv nb (fun s => Inv1 nb Vs s ∧ Inv3 Vs s)
+    (fun s ⟨h1, h3⟩ => ⟨inv1_step nb Vs hu s h1, inv3_step nb Vs hu s h1 h3⟩) n (init nb root)
+    ⟨inv1_init nb Vs root hr, inv3_init nb Vs root⟩
+  exact this.2
+
+theorem wellformed (nb : V → List V) (Vs : List V) (hu : Undirected nb Vs) (root : V) (hr : root ∈ Vs) :
+    (∀ c ∈ (biccsFrom nb root (biccFuel nb Vs)).1, (∀ v ∈ c, v ∈ Vs) ∧ c.Nodup) ∧
+    (∀ a ∈ (biccsFrom nb root (biccFuel nb Vs)).2, a ∈ Vs) := by
+  have h3 := inv3_bgo nb Vs hu root hr (biccFuel nb Vs)
+  refine ⟨h3.comps, ?_⟩
+  intro a ha
+  change a ∈ (if (bgo nb (biccFuel nb Vs) (init nb root)).rootChildren > 1 then
+    insertSet root (bgo nb (biccFuel nb Vs) (init nb root)).aps else (bgo nb (biccFuel nb Vs) (init nb root)).aps) at ha
+  split at ha
+  · rcases mem_insertSet ha with h | h
+    · rw [h]; exact hr
+    · exact h3.aps a h
+  · exact h3.aps a ha
+
 end Gaftools.Proofs.Bicc
